@@ -7,6 +7,7 @@ mod bus;
 mod gprog;
 mod opsat;
 mod pipe;
+mod rec;
 mod props;
 mod tree;
 mod uni;
@@ -54,10 +55,13 @@ fn main() {
     let ctx = Ctx { prop: prop.clone(), tier, seed, root, replay, start: std::time::Instant::now(), args: kv };
     println!("psim property={} tier={} VERIF_SEED={}", prop, tier.name(), seed);
     let code = match prop.as_str() {
+        "C01" => props::c01::main(&ctx),
         "C02" => props::c02::main(&ctx),
         "C03" => props::c03::main(&ctx),
         "C09" => props::c10::main(&ctx, true),
         "C10" => props::c10::main(&ctx, false),
+        "C14" => props::c14::main(&ctx),
+        "C15" => props::c15::main(&ctx),
         "C18" => props::c18::main(&ctx),
         _ => {
             eprintln!("unknown property {prop}");
